@@ -6,7 +6,8 @@
 //! reference observation of that operation executed **alone in a fresh process**. Because a lazy
 //! table can be first-used only once per process, every permutation of the 6 first-use operations
 //! (720; quick: every 3rd) runs in its own subprocess, followed by all 11 operations.
-//! (B) thread interleavings of first use under loom: engine-loom crate, driven by drivers/c18.py.
+//! (B) thread interleavings of first use under loom (hook H2, engine-loom crate run by drivers/c18.py):
+//! every thread's observation in every explored execution equals the sequential reference.
 
 use crate::report::{Acc, Outcome, Violation};
 use crate::util::{catch, dt, ymd};
@@ -269,6 +270,26 @@ pub fn run(cfg: &Cfg) -> Outcome {
         }
     }
     acc.add("free_running_thread_mismatches", free_running_bad);
+    // (B) loom exploration of concurrent first use (run by drivers/c18.py before the engine)
+    let mut loom_cov = Value::Null;
+    match std::env::var("OHMC_C18_LOOM").ok().and_then(|p| std::fs::read_to_string(p).ok()).and_then(|t| serde_json::from_str::<Value>(&t).ok()) {
+        Some(doc) => {
+            let n = doc["executions"].as_u64().unwrap_or(0);
+            acc.add("loom_executions", n);
+            acc.add("states", n);
+            acc.add("transitions", n);
+            let bad = doc["violations"].as_array().cloned().unwrap_or_default();
+            acc.add("traces_validated_against_impl", if bad.is_empty() { n } else { 0 });
+            for v in bad {
+                acc.violate(Violation::new("observation_differs_under_concurrent_first_use", vec![], json!({"loom": v}), format!("loom harness {}: thread {} op {} observed {:.200}… instead of {:.200}…", v["harness"], v["thread"], v["op"], v["observed"].as_str().unwrap_or(""), v["expected"].as_str().unwrap_or(""))));
+            }
+            loom_cov = json!({"preemption_bound": doc["preemption_bound"], "harnesses": doc["harnesses"]});
+        }
+        None => {
+            eprintln!("C18 needs the loom result written by drivers/c18.py (env OHMC_C18_LOOM)");
+            std::process::exit(2);
+        }
+    }
     let distinct: BTreeMap<String, usize> = outcomes.iter().enumerate().map(|(i, s)| (format!("op{i}"), s.len())).collect();
     let ev = acc.get("transitions");
     acc.add("evaluations", ev);
@@ -280,8 +301,9 @@ pub fn run(cfg: &Cfg) -> Outcome {
     o.exhaustive = true;
     o.cov("operation_alphabet", json!(["eval oh1(FR)", "eval clone of oh1", "eval reparsed oh1", "eval oh2(US, Paris coords, tz)", "FR.holidays()", "US.holidays()", "Country::try_from_coords", "TzLocation::from_coords", "parse+eval easter", "normalize+eval", "half-consumed iterator dropped, then eval"]));
     o.cov("history_depth", json!(depth));
+    o.cov("loom", loom_cov);
     o.cov("distinct_observed_outcomes_per_operation", json!(distinct));
-    o.cov("rule", json!("explicit enumeration of operation histories on the real code: every sequence of length ≤ depth over the 11-operation alphabet executed in one process (process-wide lazy tables persist across histories), every permutation of the 6 first-use operations (quick: every 3rd of 720) in its own subprocess followed by all 11 operations; oracle: the observation (state, next_change, schedule, first 5 intervals / table summaries rendered to text) of each operation executed alone in a fresh process. states = histories + permutations, transitions = operations compared. The expected result is exactly one distinct outcome per operation (collisions are forced by the construction of the alphabet, not inferred from the count)"));
+    o.cov("rule", json!("explicit enumeration of operation histories on the real code: every sequence of length ≤ depth over the 11-operation alphabet executed in one process (process-wide lazy tables persist across histories), every permutation of the 6 first-use operations (quick: every 3rd of 720) in its own subprocess followed by all 11 operations; oracle: the observation (state, next_change, schedule, first 5 intervals / table summaries rendered to text) of each operation executed alone in a fresh process. (B) loom: 2–4 threads each running 1–3 operations that first-use the holiday / boundary / zone tables through the cfg-switched LazyLock facade, all interleavings up to the preemption bound (3 quick, 5 thorough), loom's Lazy also letting racing threads both run the initialiser. states = histories + permutations + loom executions, transitions = operations compared. The expected result is exactly one distinct outcome per operation (collisions are forced by the construction of the alphabet, not inferred from the count)"));
     o.assume("thread-level interleavings of first use are explored by the loom harness (engine-loom, merged into this evidence by drivers/c18.py); plain memory accesses outside the LazyLock seam are outside any controlled scheduler here — the free-running 8-thread pass is a smoke test, not coverage");
     o
 }
